@@ -551,7 +551,7 @@ def quoted_oracle(cfg, c):
 
 def quoted_grid():
     grid = []
-    for (q, eq) in [('"', '"'), ("<", ">"), ("<<", ">>"), (SQ3, SQ3), ("<", ">>"), ("t", "t")]:
+    for (q, eq) in [('"', '"'), ("[", "]"), ("<<", ">>"), (SQ3, SQ3), ("$", "$$"), ("t", "t")]:
         for esc in [None, BSL, "^"]:
             for escq in [None, eq * 2, "$$"]:
                 for ml in [False, True]:
@@ -709,8 +709,15 @@ def ref_counted(s):
     return items, pos
 
 
+def skipws_from(s, pos):
+    while pos < len(s) and s[pos] in WS:
+        pos += 1
+    return pos
+
+
 def run_at0(expr, s):
     import pyparsing as pp
+    expr.streamline()                       # what parse_string does first (And([]) of `e * (0, 0)` disappears)
     try:
         loc, toks = expr._parse(s, 0)
         return (toks.as_list(), loc)
@@ -747,7 +754,7 @@ def part_e(ctx, info):
         if got != want:
             viol(ctx, "nested:%r" % s, "nested_expr on %r gives %r, the bracket reading gives %r" % (s, got, want), {"kind": "nested", "s": s})
         impl.append(got)
-    exprs = ["map (fun s => match parse_nested 40 40%N 41%N s with Some (t, r) => Some (t, length r) | None => None end) [%s]"
+    exprs = ["map (fun s => match parse_nested 40 40%%N 41%%N s with Some (t, r) => Some (t, length r) | None => None end) [%s]"
              % "; ".join(vlib.coq_str(x) for x in strs)]
     # DelimitedList
     dl_cases = dl_params()
@@ -758,7 +765,15 @@ def part_e(ctx, info):
         for s in dl_strs:
             got = run_at0(e, s)
             want = ref_delimited(s, mn, mx, trail)
-            if got != want:
+            # positions are compared modulo white space: an Opt / ZeroOrMore that fails has still skipped it
+            if got is not None:
+                got = (got[0], skipws_from(s, got[1]))
+            if want is not None:
+                want = (want[0], skipws_from(s, want[1]))
+            if got != want and got is None and mx == 1 and trail:
+                viol(ctx, "delimited:max1-trailing", "F-18i DelimitedList(max=1, allow_trailing_delim=True) rejects %r" % s,
+                     {"kind": "delimited", "min": mn, "max": mx, "trail": trail, "s": s})
+            elif got != want:
                 viol(ctx, "delimited:min=%r,max=%r,trail=%r:%r" % (mn, mx, trail, s),
                      "DelimitedList(min=%r,max=%r,trailing=%r) on %r gives %r, expected %r" % (mn, mx, trail, s, got, want),
                      {"kind": "delimited", "min": mn, "max": mx, "trail": trail, "s": s})
@@ -797,7 +812,7 @@ def part_e(ctx, info):
     for k, (mn, mx, trail) in enumerate(dl_cases):
         for s, m in zip(dl_strs, res[1 + k]):
             got = dl_impl[(mn, mx, trail, s)]
-            mod = None if m == "None" else ([vlib.from_coq_str(w) for w in m[1][0]], len(s) - m[1][1])
+            mod = None if m == "None" else ([vlib.from_coq_str(w) for w in m[1][0]], skipws_from(s, len(s) - m[1][1]))
             ok = mod == got
             ctx.case(("dl", mn, mx, trail, s), nontrivial=got is not None, agreed=ok)
             if not ok and nb < 6:
@@ -814,32 +829,109 @@ def part_e(ctx, info):
 
 
 def search(ctx, reasons):
-    """the tie is broken (a proof or a correspondence no longer checks): widen the oracles on the implementation"""
+    """the tie is broken (a proof or a correspondence no longer checks) and correspond() found no failing input:
+    evaluate the same oracles on the implementation over wider scopes"""
+    import pyparsing as pp
     from pyparsing import pyparsing_common as ppc
     info = gen_info()
-    names = ["integer", "signed_integer", "hex_integer", "real", "sci_real", "number", "fnumber", "ieee_float"]
-    for name in names:
+    found = lambda: any(v["found_input"] for v in ctx.violations)
+    for name in ["integer", "signed_integer", "hex_integer", "real", "sci_real", "number", "fnumber", "ieee_float"]:
         expr = getattr(ppc, name)
-        for s in itertools.chain(all_strings("+-.eE09g", 5), all_strings("0aFgx", 3)):
+        for s in itertools.chain(all_strings("+-.eE09g", 5), all_strings("0aFgxG_", 4)):
             bad = numeric_oracle(name, expr, s, info)
             ctx.stat("search_cases")
             if bad and bad[0] not in ctx.known:
-                ctx.violation(bad[0], bad[1], {"kind": "numeric", "expr": name, "s": s})
+                viol(ctx, bad[0], bad[1], {"kind": "numeric", "expr": name, "s": s})
                 break
+    if found():
+        return
+    for cfg in quoted_grid() + [(q, e, esc, None, ml, True, cws) for (q, e) in [("(", ")"), ("$", "$"), ("{{", "}}"), ("ab", "ba"), ("x", "u")]
+                                for esc in (BSL, "^", "a") for ml in (False, True) for cws in (False, True)]:
+        q, eq, esc, escq, ml, unq, cws = cfg
+        alpha = "".join(sorted(set(q + eq + (esc or "") + (escq or "") + "a \nt3" + BSL)))
+        for c in all_strings(alpha, 4):
+            bad = quoted_oracle(cfg, c)
+            ctx.stat("search_cases")
+            if bad and bad != "outside" and bad[0] not in ctx.known:
+                viol(ctx, bad[0], bad[1], {"kind": "quoted", "cfg": list(cfg), "content": c})
+                break
+    if found():
+        return
+    for mn in (None, 1, 2, 3, 4):
+        for mx in (None, 1, 2, 3, 4, 5):
+            if mx is not None and mn is not None and mx < mn:
+                continue
+            for trail in (False, True):
+                e = pp.DelimitedList(pp.Word("ab"), ",", min=mn, max=mx, allow_trailing_delim=trail)
+                for s in list(all_strings("a,", 9, lo=7)) + [",".join(["a"] * k) + t for k in range(1, 8) for t in ("", ",", " ,", ",,")]:
+                    got, want = run_at0(e, s), ref_delimited(s, mn, mx, trail)
+                    got = None if got is None else (got[0], skipws_from(s, got[1]))
+                    want = None if want is None else (want[0], skipws_from(s, want[1]))
+                    ctx.stat("search_cases")
+                    if got != want and not (mx == 1 and trail):
+                        viol(ctx, "delimited:min=%r,max=%r,trail=%r:%r" % (mn, mx, trail, s),
+                             "DelimitedList(min=%r,max=%r,trailing=%r) on %r gives %r, expected %r" % (mn, mx, trail, s, got, want),
+                             {"kind": "delimited", "min": mn, "max": mx, "trail": trail, "s": s})
+                        return
+    ca = pp.counted_array(pp.Word("ab"))
+    for k in range(0, 12):
+        for items in range(0, 14):
+            s = ("%d " % k) + " ".join(["ab"] * items)
+            ctx.stat("search_cases")
+            if run_at0(ca, s) != ref_counted(s):
+                viol(ctx, "counted:%r" % s, "counted_array on %r gives %r, expected %r" % (s, run_at0(ca, s), ref_counted(s)), {"kind": "counted", "s": s})
+                return
+    ne = pp.nested_expr("(", ")", ignore_expr=None)
+    for s in all_strings("()ab \n", 7, lo=7):
+        got = run_at0(ne, s)
+        if got not in (None, "rec"):
+            got = (got[0][0], got[1])
+        ctx.stat("search_cases")
+        if got != ref_nested(s):
+            viol(ctx, "nested:%r" % s, "nested_expr on %r gives %r, the bracket reading gives %r" % (s, got, ref_nested(s)), {"kind": "nested", "s": s})
+            return
 
 
 def replay(ctx, obj):
+    import pyparsing as pp
     from pyparsing import pyparsing_common as ppc
     r = obj["replay"]
-    info = gen_info()
-    if r.get("kind") == "numeric":
-        bad = numeric_oracle(r["expr"], getattr(ppc, r["expr"]), r["s"], info)
-        if bad:
-            print(bad[1])
-        return bad is None
-    if r.get("kind") == "fraction":
-        got = pp_parse(ppc.fraction, r["s"])
-        print("fraction on %r: %r" % (r["s"], got))
+    k = r.get("kind")
+    bad = None
+    if k == "numeric":
+        bad = numeric_oracle(r["expr"], getattr(ppc, r["expr"]), r["s"], gen_info())
+    elif k in ("fraction", "mixed"):
+        e = ppc.fraction if k == "fraction" else ppc.mixed_integer
+        got = pp_parse(e, r["s"])
+        print("%s on %r: %r" % (k, r["s"], got))
         return got[0] != "exc"
-    print("replay names a broken proof/correspondence obligation: %r" % (r,))
-    return False
+    elif k == "family":
+        bad = family_oracle(r["family"], r["s"])
+    elif k == "quoted":
+        bad = quoted_oracle(tuple(r["cfg"]), r["content"])
+        bad = None if bad == "outside" else bad
+    elif k == "quoted-numeric":
+        got = qs_run(make_qs(('"', '"', BSL, None, False, True, True)), r["src"])
+        bad = None if got == (len(r["src"]), r["want"]) else ("", "%r parses to %r, documented %r" % (r["src"], got, r["want"]))
+    elif k == "nested":
+        got = run_at0(pp.nested_expr("(", ")", ignore_expr=None), r["s"])
+        if got not in (None, "rec"):
+            got = (got[0][0], got[1])
+        want = ref_nested(r["s"])
+        bad = None if got == want else ("", "nested_expr on %r gives %r, the bracket reading gives %r" % (r["s"], got, want))
+    elif k == "delimited":
+        e = pp.DelimitedList(pp.Word("ab"), ",", min=r["min"], max=r["max"], allow_trailing_delim=r["trail"])
+        got, want = run_at0(e, r["s"]), ref_delimited(r["s"], r["min"], r["max"], r["trail"])
+        got = None if got is None else (got[0], skipws_from(r["s"], got[1]))
+        want = None if want is None else (want[0], skipws_from(r["s"], want[1]))
+        bad = None if got == want else ("", "DelimitedList(min=%r,max=%r,trailing=%r) on %r gives %r, expected %r" % (
+            r["min"], r["max"], r["trail"], r["s"], got, want))
+    elif k == "counted":
+        got, want = run_at0(pp.counted_array(pp.Word("ab")), r["s"]), ref_counted(r["s"])
+        bad = None if got == want else ("", "counted_array on %r gives %r, expected %r" % (r["s"], got, want))
+    else:
+        print("replay names a broken proof/correspondence obligation: %r" % (r,))
+        return False
+    if bad:
+        print(bad[1])
+    return bad is None
